@@ -240,6 +240,35 @@ pub fn run_c12(a: &Args, rep: &mut Report) {
             flush(rep, &mut cases);
         }
     }
+    // code-size sweep: straight-line programs of every length in a range, three instruction mixes
+    // (3-, 4- and 7-byte x86 encodings), so that the emitted code size crosses every page boundary
+    // residue (buffer sizing arithmetic)
+    {
+        let max_n: usize = if q { 4200 } else { 20000 };
+        let mut n = 1 + a.shard as usize;
+        while n <= max_n {
+            let mix = n % 3;
+            let mut v: Vec<Insn> = Vec::with_capacity(n + 1);
+            v.push(Insn::new(MOV64_IMM, 0, 0, 0, 1));
+            for k in 0..n {
+                v.push(match (mix + k % 2) % 3 {
+                    0 => Insn::new(ADD64_IMM, 0, 0, 0, 3),   // 48 81 c0 imm32 / 48 05 ...
+                    1 => Insn::new(MOV64_REG, 6, 0, 0, 0),   // 3 bytes
+                    _ => Insn::new(0xc7, 7, 0, 0, 1),        // arsh64 r7, 1: 4 bytes (r7 maps to r13)
+                });
+            }
+            v.push(Insn::new(EXIT, 0, 0, 0, 0));
+            let mut c = Case::new(Kind::NoData, encode_prog(&v), "size-sweep");
+            c.class = "size-sweep".into();
+            cases.push((c, "size-sweep"));
+            if cases.len() >= 64 {
+                flush(rep, &mut cases);
+            }
+            n += a.nshards as usize;
+        }
+        flush(rep, &mut cases);
+        rep.set("size_sweep", format!("straight-line programs of 1..={max_n} instructions (sliced over shards)"));
+    }
     // long programs (JIT up to the limit, Cranelift up to 20k/100k)
     let lens: &[usize] = if q { &[4_000, 33_000, 70_000] } else { &[4_000, 20_000, 33_000, 70_000, 131_100, 500_000, 1_000_000] };
     for (i, len) in lens.iter().enumerate() {
